@@ -353,7 +353,8 @@ impl<'a> Gen<'a> {
             };
             let nparams = self.c.weighted(&[70, 25, 8]);
             let params: Vec<String> = ["A", "B"][..nparams].iter().map(|s| s.to_string()).collect();
-            let nx = 1 + self.c.weighted(&[30, 40, 20, 8, 4, 3]);
+            // a codata type without destructors is accepted (its only value is `new { }`)
+            let nx = if codata && self.c.prob(24) { 0 } else { 1 + self.c.weighted(&[30, 40, 20, 8, 4, 3]) };
             let mut xtors = vec![];
             for xi in 0..nx {
                 let xname = loop {
